@@ -775,6 +775,8 @@ class MCrash(Monitor):
             self.running.add(arn)
         elif st in TERMINAL:
             self.term.setdefault(arn, []).append([st, d.get("output"), d.get("error")])
+            self.term_step = getattr(self, "term_step", {})
+            self.term_step.setdefault(arn, w.step_no)
     def on_op(self, w, op):
         if op["op"] == "deliver" and op.get("redelivered") and op.get("arn") and op.get("queue", "").startswith("asl_workflow_events"):
             # only a redelivered *Task* state event can be "treated as already requested"
@@ -794,8 +796,30 @@ class MCrash(Monitor):
                                         self.redelivered_events.add(op.get("message_id"))
                         except Exception:
                             pass
+        # which Task event is a 0 ms delegate working for: the event delivered in the step that armed the timer
+        if op["op"] == "deliver" and op.get("queue", "").startswith("asl_workflow_events"):
+            self.cur_event = op.get("message_id")
+        elif op["op"] == "set_timeout" and str(getattr(w, "cur_kind", "")).startswith("deliver") and getattr(self, "cur_event", None):
+            self.timer_event = getattr(self, "timer_event", {})
+            self.timer_event[op.get("timer")] = self.cur_event
+        elif op["op"] == "timer_fired":
+            self.cur_event = getattr(self, "timer_event", {}).get(op.get("timer"))
         if op["op"] == "publish" and op.get("routing_key") in w.workers:
             self.requested.add((op.get("correlation_id") or "").split(".")[0])
+        if op["op"] == "publish" and op.get("arn") and op.get("exchange") == "" and str(op.get("routing_key")).startswith("asl_workflow_events") \
+                and str(getattr(w, "cur_kind", "")).endswith("asl_state_Task_delegate") and getattr(self, "cur_event", None):
+            # a Task that launches a child execution: publishing the child's start event is "the request went out"
+            try:
+                nm = (json.loads(op["body"].decode("utf8"))["context"].get("State") or {}).get("Name")
+            except Exception:
+                nm = "?"
+            if not nm:
+                self.requested.add(self.cur_event)
+                self.child_of = getattr(self, "child_of", {})
+                self.child_of[self.cur_event] = op.get("arn")
+        if op["op"] == "timer_fired" and getattr(self, "cur_event", None) in self.redelivered_events and str(op.get("kind", "")).endswith("asl_state_Task_delegate"):
+            self.redeliv_delegate_step = getattr(self, "redeliv_delegate_step", {})
+            self.redeliv_delegate_step.setdefault(self.cur_event, w.step_no)
         if op["op"] == "ack" and op.get("site") and "log_and_acknowledge_orphaned_responses" in op["site"][1]:
             self.orphan_dropped.add((op.get("correlation_id") or "").split(".")[0])
         elif op["op"] == "ack" and op.get("queue", "").startswith("asl_workflow_reply_to"):
@@ -831,6 +855,11 @@ class MCrash(Monitor):
                         what = "reply-to-a-sent-request-dropped-as-orphan"
                     elif err == "States.Timeout" and any(m in self.reply_consumed for m in self.redelivered_events):
                         what = "redelivered-task-event-whose-reply-was-already-consumed"
+                    elif err == "States.Timeout" and any(
+                            m in self.requested and getattr(self, "child_of", {}).get(m) in getattr(self, "term_step", {})
+                            and self.term_step[self.child_of[m]] <= getattr(self, "redeliv_delegate_step", {}).get(m, float("inf"))
+                            for m in self.redelivered_events):
+                        what = "sync-child-ended-before-redelivered-parent-task-re-registered"
                     elif err == "States.Timeout" and any(m not in self.requested for m in self.redelivered_events):
                         what = "redelivered-event-whose-request-was-never-sent"
                     else:
